@@ -93,11 +93,15 @@ def indexOf (needle : Bytes) : Bytes → Option Nat
 
 /-! ## the hello as the code reads it: regex engine on the extracted patterns -/
 
+/-- `len(sessionIDMatch) != numSessionIDMatches → return`: `FindSubmatch` of a pattern with one
+group has length 2 when it matches; with any other value of the constant the id is never read -/
+def sidMatchLenOK : Bool := Gen.Netconf.numSessionIDMatches == 2
+
 /-- `(hello matched, capability group 1 of every match, session-id group 1 of the first match)` -/
 def parseHello (raw : Bytes) : Bool × List Bytes × Option Bytes :=
   (Rx.isMatch Gen.Rx.Netconf.hello raw,
    Rx.findAllGroup Gen.Rx.Netconf.capability raw 1,
-   Rx.findGroup Gen.Rx.Netconf.sessionID raw 1)
+   if sidMatchLenOK then Rx.findGroup Gen.Rx.Netconf.sessionID raw 1 else none)
 
 /-! ## hand-written scanner -/
 
